@@ -274,10 +274,14 @@ class Driver:
     def _run_shard(self, lines):
         if not lines:
             return []
-        rc, out, err = sh(["lake", "env", "lean", "--run", "Driver.lean"], cwd=LEAN, input="\n".join(lines) + "\n",
-                          timeout=3000)
+        for attempt in range(3):
+            rc, out, err = sh(["lake", "env", "lean", "--run", "Driver.lean"], cwd=LEAN, input="\n".join(lines) + "\n",
+                              timeout=3000)
+            if rc == 0:
+                break
+            time.sleep(2 + 3 * attempt)      # transient failures (interpreter start-up under load) are retried
         if rc != 0:
-            raise InfraError("driver failed: " + err[-2000:])
+            raise InfraError("driver failed (rc=%s): %s %s" % (rc, err[-2000:], out[-300:]))
         res = out.split("\n")
         if res and res[-1] == "":
             res.pop()
